@@ -211,6 +211,22 @@ def judge(case):
     v.info["rel_dev"] = d
     if not d <= TOL:
         return v.fail(f"point_charge_integral deviates by {d:.3e} of sqrt(|V_aa V_bb|) at {at} (charge {q[at[2]]:.3g} at {C[at[2]].tolist()})")
+    # charges stored in other numeric dtypes (atomic numbers read from a file: unsigned or 32-bit integers, float32): the documented
+    # dtypes are int/float; anything else is either rejected or gives the numbers of the float64 array of the same values
+    if int(case_hash(case), 16) % 3 == 0:
+        zi = np.maximum(1, np.minimum(100, np.rint(np.abs(q)))).astype(int)
+        base = lib(point_charge_integral, bas, C, zi.astype(float))
+        for dt in (np.uint8, np.uint32, np.int32, np.float32):
+            try:
+                alt = point_charge_integral(bas, C, zi.astype(dt))
+            except Exception:  # noqa: BLE001 - rejecting the dtype is the documented alternative
+                v.classes.append("charge-dtype-rejected")
+                continue
+            v.classes.append("charge-dtype-accepted")
+            d, at = maxdev(alt, base, np.abs(base) + scale)
+            if not d <= 1e-6:
+                return v.fail(f"point_charge_integral with charges {zi.tolist()} stored as {np.dtype(dt).name} differs from the float64 "
+                              f"result by {d:.3e} at {at} (got {alt[at]!r}, float64 {base[at]!r})")
     nea = lib(nuclear_electron_attraction_integral, bas, Cl, ql)
     d, at = maxdev(nea, got.sum(axis=2), np.abs(got).sum(axis=2) + 1e-300)
     if not d <= 1e-13:
